@@ -18,6 +18,10 @@ def tweak_threads(rng, w, i):
     # most runs single-threaded (exact log comparison); some with several workers (property checkers only)
     if i % 5 == 4:
         w.threads = rng.choice([0, 2, 3, 8])
+        if i % 10 == 9:
+            # the interleaving of the workers' file operations, write locks and counter updates is chosen by a seeded
+            # scheduler instead of the OS (replayable; explores preemption between any two file operations)
+            w.sched_fs = rng.next() % (2**32)
 
 def tweak_resize(rng, w, i):
     w.resize = i % 3 != 2
@@ -39,10 +43,26 @@ def run_worlds(worlds, jobs=None):
             answers.append(next(ans))
     cases = []
     for r, a in zip(results, answers):
+        if r.world.threads != 1 and a.startswith("DISAGREE prop-ok ") and " DIFF:files " in a + " " and order_dependent_only(r):
+            a = "agree " + a.split(" ", 2)[1] + " order-dependent-availability(fixpoints-equal) " + a.split(" ", 2)[2]
         c = C.Case(r.request, r.observation, a, tag=r.world.tag or "world")
         c.result = r
         cases.append(c)
     return cases
+
+def order_dependent_only(r):
+    """A run with several workers is compared with the model on its final tree only, and the model evaluates the
+    pieces one after the other. When a piece becomes available DURING the run (another torrent's export image of
+    the same length, completed by the same run) whether it is recovered depends on the interleaving, and both
+    outcomes satisfy every property (C02 speaks of data present when the run starts). Such a difference is told
+    from a real one by running on: the tree this run left and the tree a single-threaded run (which the model
+    follows operation for operation) leaves must reach the same idle tree."""
+    import copy
+    if r.world.faults or r.world.crash is not None or r.result != "ok":
+        return False
+    v = copy.copy(r.world); v.threads = 1
+    r1 = W.execute(v)
+    return r1.result == "ok" and fixpoint_tree(r) == fixpoint_tree(r1)
 
 def count_ops(r):
     return len(r.ops), sum(1 for op in r.ops if op[1] in ("openc", "mkdirs", "setlen", "write"))
@@ -393,7 +413,21 @@ def exec_line(r):
     req += ["SOLVE", str(len(solves))] + [str(x) for x in solves]
     return " ".join(req) + " | RES " + r.result, len(init), len(evs), len(solves)
 
+def gen_fs_sched_world(rng, i):
+    """threaded runs in which every file operation is a scheduling point: several workers writing pieces of the same
+    export file (many tiny pieces) or of generated multi-file worlds, under the seeded policies"""
+    w = W.gen_world_many_pieces(rng) if i % 2 else W.gen_world(rng, ntorrents=rng.choice([1, 2]))
+    w.threads = rng.choice([2, 2, 3, 4])
+    w.sched_fs = rng.next() % (2**32)
+    w.tag = "fs-sched threads=%d" % w.threads
+    return w
+
 def run_exec_cases(worlds):
+    fs_worlds = [w for w in worlds if getattr(w, "sched_fs", None) is not None]
+    worlds = [w for w in worlds if getattr(w, "sched_fs", None) is None]
+    return run_exec_only(worlds) + (run_worlds(fs_worlds) if fs_worlds else [])
+
+def run_exec_only(worlds):
     with cf.ThreadPoolExecutor(max_workers=C.NCPU) as ex:
         results = list(ex.map(W.execute, worlds))
     lines, kept, cases = [], [], []
@@ -459,6 +493,8 @@ def run_with_cli(worlds, ncli):
     return cases + extra
 
 PROPS["C05"] = dict(module="TB.Props.C05", theorems=["C05_once", "C05_deadlock_free", "C05_final", "C05_measure_decreases", "C05_terminates"],
-                    clauses=["c05-", "c16-"],
-                    worlds=lambda t, s: [gen_exec_world(Rng(s, "c05", i), i) for i in range(300 if t == "quick" else 6000)],
+                    # a threaded run must satisfy the guarantees of a single-threaded one: the run-level clauses count here
+                    clauses=["c05-", "c16-", "c01-", "c02-", "c04-", "c12-", "c13-", "c15-"],
+                    worlds=lambda t, s: [gen_exec_world(Rng(s, "c05", i), i) for i in range(300 if t == "quick" else 6000)]
+                                        + [gen_fs_sched_world(Rng(s, "c05-fs", i), i) for i in range(200 if t == "quick" else 4000)],
                     runner=run_exec_cases)
